@@ -110,10 +110,12 @@ def build_cases(configs: list[dict], tier: str = "quick", seed: int = 1) -> list
             rcs = [1]
             if c["fault"] in ("ProbePio", "Build", "Upload"):
                 rcs = [1, -15] if tier == "quick" else [1, 2, 127, 255, -9, -15]
-            for rc in rcs:
+            # "PlatformIO absent" = the tool cannot be started: not on PATH, there but not executable, there but not runnable
+            absents = [target_rec.ENOENT] if c["pio"] else [target_rec.ENOENT, target_rec.EACCES, target_rec.ENOEXEC]
+            for rc, absent in [(r, a) for r in rcs for a in absents]:
                 cases.append({"id": f"{name}/{'up' if c['upload'] else 'noup'}/{'pio' if c['pio'] else 'nopio'}/{c['pair']}/{c['fault']}"
-                                    + ("" if rc == 1 else f"/rc{rc}"),
-                              "upload": c["upload"], "pio": c["pio"], "pair": c["pair"], "fault": c["fault"], "failrc": rc,
+                                    + ("" if rc == 1 else f"/rc{rc}") + ("" if absent == target_rec.ENOENT else f"/absent{absent}"),
+                              "upload": c["upload"], "pio": c["pio"], "pair": c["pair"], "fault": c["fault"], "failrc": rc, "absent_rc": absent,
                               "platform": platform, "board": board, "port": ok[0], "script": script,
                               "src": sha(script), "cpp": sha(cpp), "libs": libs,
                               "expect": c["expect"], "trigger": c["trigger"]})
